@@ -8,15 +8,18 @@
 (*                  Success; a constant continuous solution if dense       *)
 (*   EmptyState   : y0 empty -> t = t_eval or [x0, xend], empty states     *)
 (*   Dispatch     : first_step is handed to the output handler only when   *)
-(*                  it does not exceed the interval (repair c5b5f88)       *)
+(*                  it does not exceed the interval (repair c5b5f88); the  *)
+(*                  continuous solution is built from the stored step      *)
+(*                  segments, or - when no step was accepted - is the      *)
+(*                  constant one at x0 (repair c290538)                    *)
 (* Requested times are abstract: "at" (within 1e-12 of x0) or "off".       *)
 (***************************************************************************)
 EXTENDS Integers, Sequences, FiniteSets, TLC
 
 CONSTANTS MaxT
 
-VARIABLES zero, n0, hasT, teval, dense, fs, pc, out
-vars == <<zero, n0, hasT, teval, dense, fs, pc, out>>
+VARIABLES zero, n0, hasT, teval, dense, fs, nacc, pc, out
+vars == <<zero, n0, hasT, teval, dense, fs, nacc, pc, out>>
 
 Init == /\ zero \in BOOLEAN                  \* xend = x0 (to 1e-15)
         /\ n0 \in BOOLEAN                    \* empty state vector
@@ -25,6 +28,7 @@ Init == /\ zero \in BOOLEAN                  \* xend = x0 (to 1e-15)
         /\ (~hasT => teval = <<>>)
         /\ dense \in BOOLEAN
         /\ fs \in {"none", "inside", "beyond"}    \* first_step relative to the interval
+        /\ nacc \in {"none", "some"}               \* oracle: did the stepper accept a step before it returned
         /\ pc = "call"
         /\ out = [kind |-> "none"]
 
@@ -39,9 +43,9 @@ Call ==
               ELSE IF n0
               THEN [kind |-> "empty", t |-> IF hasT THEN teval ELSE <<"at", "off">>,
                     counters |-> 0, status |-> "Success", cont |-> IF dense THEN "constant" ELSE "none", handlerFs |-> FALSE]
-              ELSE [kind |-> "solve", t |-> <<>>, counters |-> -1, status |-> "stepper", cont |-> IF dense THEN "segments" ELSE "none",
+              ELSE [kind |-> "solve", t |-> <<>>, counters |-> -1, status |-> "stepper", cont |-> IF ~dense THEN "none" ELSE IF nacc = "none" THEN "constant" ELSE "segments",
                     handlerFs |-> (fs = "inside")]
-    /\ UNCHANGED <<zero, n0, hasT, teval, dense, fs>>
+    /\ UNCHANGED <<zero, n0, hasT, teval, dense, fs, nacc>>
 
 Next == Call \/ (pc = "ret" /\ UNCHANGED vars)
 Spec == Init /\ [][Next]_vars
@@ -53,6 +57,8 @@ ZeroLength == (pc = "ret" /\ zero) =>
                  /\ (~hasT => Len(out.t) = 1)
 \* C06: sol is available exactly when dense_output was requested
 DenseIffRequested == pc = "ret" => ((out.cont # "none") <=> dense)
+\* C06: the continuous solution covers the stored samples: segments only when there are steps behind them
+CoversStored == (pc = "ret" /\ dense /\ out.kind = "solve") => (out.cont = "segments" <=> nacc = "some")
 \* C03 (repair c5b5f88): the handler never waits for a first output beyond xend
 NoUnreachableFirstOutput == (pc = "ret" /\ out.kind = "solve" /\ fs = "beyond") => ~out.handlerFs
 =============================================================================
